@@ -360,7 +360,7 @@ def r4_wait_for_plug_update(report, repo):
 
 
 def run(report, repo):
-  r1_snapshot_protocol(report, repo)
-  r2_notify(report, repo)
-  r3_changes_notify(report, repo)
-  r4_wait_for_plug_update(report, repo)
+  report.guard(r1_snapshot_protocol, report, repo)
+  report.guard(r2_notify, report, repo)
+  report.guard(r3_changes_notify, report, repo)
+  report.guard(r4_wait_for_plug_update, report, repo)
